@@ -40,8 +40,8 @@ Example C11_chain_premises_satisfiable :
   authenticated ex_env (w_sess ex_world) (ex_req CNone) = false /\
   is_public (r_path (ex_req CNone)) = false /\
   snd (apply_chain (http_register_chain str_POST) ex_handler ex_env ex_world (ex_req CNone)) = AStatus 403 /\
-  snd (apply_chain (http_register_chain str_POST) ex_handler ex_env ex_world (ex_req (CTok 7))) = AHandler tt /\
-  snd (apply_chain (http_register_chain str_GET) ex_handler ex_env ex_world (ex_req (CTok 7))) = AStatus 405.
+  snd (apply_chain (http_register_chain str_POST) ex_handler ex_env ex_world (ex_req ex_cookie)) = AHandler tt /\
+  snd (apply_chain (http_register_chain str_GET) ex_handler ex_env ex_world (ex_req ex_cookie)) = AStatus 405.
 Proof. exact chain_premises_satisfiable. Qed.
 Print Assumptions C11_chain_premises_satisfiable.
 
